@@ -314,7 +314,7 @@ fn main() {
                     }
                     None => stats.sample(&format!("{}-{}", h.chain, h.start), || json!({"history": h.to_json(), "outcomes": o.outcomes})),
                 }
-                journal.line(&format!("END {} 0", i));
+                journal.line(&format!("END {} 0 {:016x}", i, o.log_hash));
                 i += stride;
                 if let Some(d) = deadline {
                     if std::time::Instant::now() > d {
